@@ -27,11 +27,15 @@ rc_build, out_build = sh('go build ./... && go test -vet=off -count=1 ./...', wt
 rc_mut, out_mut = rundemo()
 sh('git checkout -q -- . && git clean -fdq -e _seeded', wt)
 # my check
-rc, out = sh(f'git apply {S}/{k}.diff', '/repo')
+REPO = os.environ.get('KEEP_REPO', '/repo')  # a scratch worktree at /repo's HEAD while /repo is busy
+rc, out = sh(f'git apply {S}/{k}.diff', REPO)
 assert rc == 0, out
-rc_chk, out_chk = sh(f'./run.sh {prop} quick', '/verif')
-sh('git checkout -q -- .', '/repo')
-rc, st = sh('git status --short', '/repo'); assert st.strip() == '', st
+if REPO == '/repo':
+    rc_chk, out_chk = sh(f'./run.sh {prop} quick', '/verif')
+else:
+    rc_chk, out_chk = sh(f'MAMBA_REPO={REPO} /verif/checker/bin/mambacheck {prop} quick', '/verif')
+sh('git checkout -q -- .', REPO)
+rc, st = sh('git status --short', REPO); assert st.strip() == '', st
 keys = re.findall(r'\[([A-Z-]+:[^\]]+)\]', out_chk)
 d = f'/verif/seeded/{prop}-{outk}'
 os.makedirs(d, exist_ok=True)
